@@ -5,7 +5,10 @@ import re
 FIXED = ["x y", "a b c", "(", ")", "()", "x)", ";", "a;b", "#", "#b01x", ":kw", "'", "a'b", "\"", "a\"b", "é", "λx", "∀",
          ".def_0", ".def_1", ".def_2", ".def_3", "FV0", "FV1", "__x0", "ack0", "x!1", "let1", "Int1", "a.b", "x@0", "~",
          "-", "->", "<=>", "a-b", "$", "%%", "&", "*x", "_x", "x_", "?", "/x", "Real_", "bool", "INT", "1a", " ", "  x",
-         "x  ", "[i]", "{}", ",", "a,b", "`", "x`y", "a:b", "=x", "@", "^", "~!@$%^&*_-+=<>.?/", "x" * 40, "z3name!0"]
+         "x  ", "[i]", "{}", ",", "a,b", "`", "x`y", "a:b", "=x", "@", "^", "~!@$%^&*_-+=<>.?/", "x" * 40, "z3name!0",
+         # operators pySMT reads although SMT-LIB does not define them: ordinary names for a script
+         "pow", "int.to.str", "str.to.int"]
+NON_STANDARD_OPERATORS = ["pow", "int.to.str", "str.to.int"]
 ALPHA = "abxyz019 _-.!@$%^&*+=<>?/~()[]{};:#'\",`éλ"
 
 
@@ -56,9 +59,10 @@ def rename(bp, mapping):
     return go(bp)
 
 
-def hostile_mapping(rnd, names, pct=60, allow_bar_backslash=False, functions=()):
-    """Injective renaming of `names`; each name is replaced with probability pct%.  (`functions` is kept for the
-    callers: since the repair of the tokenizer, applied functions may be named like reserved words too.)"""
+def hostile_mapping(rnd, names, pct=60, allow_bar_backslash=False, functions=(), with_pow=False):
+    """Injective renaming of `names`; each name is replaced with probability pct%.  `functions`: the names that are
+    applied to arguments (they sometimes get the name of an operator that only pySMT knows).  with_pow: the formulas
+    use the power operator, which pySMT writes as `pow` (open finding of C07): no symbol is named pow then (the clash is the same finding)."""
     used = set(names)
     m = {}
     if rnd.randrange(100) < 15:
@@ -70,13 +74,20 @@ def hostile_mapping(rnd, names, pct=60, allow_bar_backslash=False, functions=())
             if h not in used:
                 used.add(h)
                 m[n] = h
+    for n in sorted(functions):
+        # a declared function named like an operator only pySMT knows
+        if n not in m and rnd.randrange(100) < 12:
+            h = rnd.choice(NON_STANDARD_OPERATORS)
+            if h not in used and not (with_pow and h == "pow"):
+                used.add(h)
+                m[n] = h
     for n in sorted(names):
         if n in m:
             continue
         if rnd.randrange(100) < pct:
             for _ in range(10):
                 h = draw_name(rnd, allow_bar_backslash)
-                if h not in used:
+                if h not in used and not (with_pow and h == "pow"):
                     used.add(h)
                     m[n] = h
                     break
